@@ -167,6 +167,35 @@ pub fn gen_tower(prop: Prop, rng: &mut Rng, _thorough: bool) -> History {
             }
         }
     };
+    if prop == Prop::C05 {
+        // most C05 histories start with a stack already in place: rect/path in either order
+        let (w, h) = em.dims(0);
+        let n0 = rng.pick(&[0usize, 1, 2, 2, 3]);
+        for _ in 0..n0 {
+            if rng.chance(1, 2) {
+                let r = if rng.chance(2, 3) {
+                    // a rect that keeps a good part of the surface visible
+                    let x1 = rng.range(-2, w / 2);
+                    let y1 = rng.range(-2, h / 2);
+                    [x1, y1, rng.range(w / 2, w + 2), rng.range(h / 2, h + 2)]
+                } else {
+                    gen_clip_rect(rng, w, h)
+                };
+                em.push(0, Op::PushClipRect(r));
+            } else {
+                let p = if rng.chance(2, 3) {
+                    // a big blob with antialiased edges crossing the surface
+                    let cx = rng.f32_in(0., w as f32);
+                    let cy = rng.f32_in(0., h as f32);
+                    let r = rng.f32_in(0.4, 0.9) * (w.max(h) as f32);
+                    PathSpec::new(false, vec![Seg::M(F(cx + r), F(cy)), Seg::Arc(F(cx), F(cy), F(r), F(0.), F(7.)), Seg::Z])
+                } else {
+                    gen_clip_path(rng, w, h, cfg.aligned_clip_paths)
+                };
+                em.push(0, Op::PushClip(p));
+            }
+        }
+    }
     gen_scene(rng, &mut em, 0, &cfg);
     em.finish(buggify, 0, 2_000_000_000, format!("{:?} clip={} layer={} transform={} nop={}", prop, cfg.p_clip, cfg.p_layer, cfg.p_transform, cfg.p_nop))
 }
@@ -261,12 +290,12 @@ fn source_field(op: &Op, ctm: &Mat, w: i32, h: i32) -> Option<Vec<u32>> {
         Op::Mask { src, .. } => Some(render(src, 1.)),
         Op::DrawImageAt { x, y, img, opts } => {
             let xf = Transform::translation(-x.0, -y.0).then_scale(img.w as f32 / img.w as f32, img.h as f32 / img.h as f32);
-            let s = SrcSpec { kind: SrcKind::Image { img: img.clone(), repeat: false, bilinear: true, xf: mk::unmat(&xf) }, pre: None };
+            let s = SrcSpec { kind: SrcKind::Image { img: img.clone(), repeat: false, bilinear: true, xf: mk::unmat(&xf) }, pre: None, user_xf: None };
             Some(render(&s, opts.alpha.0))
         }
         Op::DrawImageSized { w: rw, h: rh, x, y, img, opts } => {
             let xf = Transform::translation(-x.0, -y.0).then_scale(img.w as f32 / rw.0, img.h as f32 / rh.0);
-            let s = SrcSpec { kind: SrcKind::Image { img: img.clone(), repeat: false, bilinear: true, xf: mk::unmat(&xf) }, pre: None };
+            let s = SrcSpec { kind: SrcKind::Image { img: img.clone(), repeat: false, bilinear: true, xf: mk::unmat(&xf) }, pre: None, user_xf: None };
             Some(render(&s, opts.alpha.0))
         }
         _ => None,
@@ -439,7 +468,7 @@ pub fn run_tower(prop: Prop, h: &History, st: &mut Stats) -> Outcome {
                 let obs = levels[below].world.surfs[0].pixels();
                 let cbyte = (opacity * 255. + 0.5) as u8;
                 let cv = clip_view(&clips, w, hh);
-                if matches!(prop, Prop::C02 | Prop::C03 | Prop::C06) {
+                if matches!(prop, Prop::C02 | Prop::C03 | Prop::C05 | Prop::C06) {
                     checked_pops += 1;
                     for p in 0..n {
                         let c = if cv.inside[p] { cbyte } else { 0 };
@@ -454,6 +483,7 @@ pub fn run_tower(prop: Prop, h: &History, st: &mut Stats) -> Outcome {
                                 let oracle = match prop {
                                     Prop::C02 => "c02.pop-layer-changed-outside",
                                     Prop::C03 => "c03.pop-layer-kernel",
+                                    Prop::C05 => "c05.layer-drawn-under-clip-differs-from-group",
                                     _ => "c06.pop-composite",
                                 };
                                 return viol(
